@@ -11,6 +11,9 @@
  *             hand: it is handed to worker 0, who releases it.
  *        After the join the count must be EXACTLY L (+1 for join); the creator then releases
  *        the rest.  A userdata delete callback counts destructions per node.
+ *   seedx <N> <R> <keyhex> <draws>   as `seed`, with the first results of json_c_get_random_seed()
+ *        scripted (comma list of ints, "xK" = K more copies of the previous value), e.g. the
+ *        sentinel -1 on the first draws; afterwards the real source.
  *   seed <N> <R> <keyhex>   N threads released by a barrier each create their first object,
  *        add the key and record the key's hash (default table hash) 1+R times; then the
  *        main thread hashes once more and looks the key up in every thread's table WITH ITS
@@ -29,6 +32,7 @@
  * Every other report (any plain write, anything on the heap, i.e. on a reference count)
  * terminates the child with status 66; the parent prints "CRASH tsan:race" as the
  * observation of that line (the framework's notation for a sanitizer abort) and goes on. */
+// EXCLUDE: random_seed.c
 #include "common.h"
 #include <pthread.h>
 #include <signal.h>
@@ -40,6 +44,27 @@
 #include "linkhash.h"
 
 const char *DOMAIN = "thr";
+
+/* ------------------------------------------------------------------ the random source as an oracle
+ * The theorems quantify over EVERY random source (incl. one that returns the "unset" sentinel
+ * -1, the same value twice, 0, INT_MIN ...).  To give the runtime stream the same reach the
+ * library's json_c_get_random_seed is compiled into this unit under another name and the
+ * public name is a front that, for `seedx` cases, first hands out a scripted sequence of draws
+ * (process-wide, in call order) and then falls back to the real source. */
+#define json_c_get_random_seed real_json_c_get_random_seed
+#include "random_seed.c"
+#undef json_c_get_random_seed
+#define MAXDRAWS 4096
+static int draws[MAXDRAWS];
+static int n_draws, next_draw, total_draws;
+int json_c_get_random_seed(void)
+{
+	int k = __atomic_fetch_add(&next_draw, 1, __ATOMIC_SEQ_CST);
+	__atomic_add_fetch(&total_draws, 1, __ATOMIC_SEQ_CST);
+	if (k < n_draws)
+		return draws[k];
+	return real_json_c_get_random_seed();
+}
 
 const char *__tsan_default_options(void)
 {
@@ -232,7 +257,21 @@ static void case_seed(char *args)
 	unsigned long hmain;
 	struct json_object *o;
 	pthread_t th[MAXT];
+	char *dr;
 	if (sscanf(args, "%d %d %500s", &N, &seed_R, keyhex) != 3 || N < 1 || N >= MAXT) { printf("BADLINE"); return; }
+	/* optional 4th field: the scripted draws "v,v,xK,..." (v xK = K more copies of the last value) */
+	dr = strchr(args, ' '); dr = dr ? strchr(dr + 1, ' ') : NULL; dr = dr ? strchr(dr + 1, ' ') : NULL;
+	if (dr) {
+		char *tok, *save = NULL;
+		for (tok = strtok_r(dr + 1, ",", &save); tok; tok = strtok_r(NULL, ",", &save)) {
+			if (tok[0] == 'x' && n_draws > 0) {
+				long k = strtol(tok + 1, NULL, 10);
+				while (k-- > 0 && n_draws < MAXDRAWS) { draws[n_draws] = draws[n_draws - 1]; n_draws++; }
+			} else if (n_draws < MAXDRAWS) {
+				draws[n_draws++] = (int)strtol(tok, NULL, 10);
+			}
+		}
+	}
 	kb = unhex(keyhex, &kl);
 	seed_key = (char *)malloc(kl + 1);
 	memcpy(seed_key, kb, kl);
@@ -363,6 +402,7 @@ void run_case(char *rest)
 		alarm(300);
 		if (strncmp(rest, "rc ", 3) == 0) case_rc(rest + 3);
 		else if (strncmp(rest, "seed ", 5) == 0) case_seed(rest + 5);
+		else if (strncmp(rest, "seedx ", 6) == 0) case_seed(rest + 6);
 		else if (strncmp(rest, "trees ", 6) == 0) case_trees(rest + 6);
 		else printf("BADLINE");
 		printf(" volrd %d", tolerated_reports ? 1 : 0);
